@@ -86,6 +86,11 @@ struct HistEngine : Engine {
 			}
 			p["deep_docs"] = true;
 		}
+		if (w.chance(1, 12)) {
+			// swarm: one or two documents with dozens of long abbreviation / glossary terms (the search trie outgrows its initial node array)
+			int nd = (int)w.range(1, 2);
+			for (int i = 0; i < nd; i++) { int di = (int)w.below((uint64_t)ndocs); if (di != opml_doc) docs[(size_t)di] = gen_glossary_doc(w); }
+		}
 		p["docs"] = docs;
 		p["opml_doc"] = opml_doc;
 		// a few simulated files so that transclusion and assets can be part of the noise
